@@ -107,6 +107,9 @@ class Rule(Expression):
 
         if self.modifier & SILENT:
             # Children without an enclosing Pair.
+            if self.hides_inner_pairs():
+                # Still matched atomically, e.g. `WHITESPACE = _{ .. }`.
+                children = visible_in_atomic(children)
             pairs.extend(children)
             return True
 
@@ -167,6 +170,9 @@ class Rule(Expression):
 
             if self.modifier & SILENT:
                 gen.writeln(f"# Silent rule {self.name!r}")
+                if self.hides_inner_pairs():
+                    # Still matched atomically, e.g. `WHITESPACE = _{ .. }`.
+                    children = f"visible_in_atomic({children})"
                 gen.writeln(f"{pairs_var}.extend({children})")
                 gen.writeln(f"return {matched_var}")
             else:
